@@ -10,7 +10,7 @@ Inductive jvalue :=
 | JNull | JBool (b : bool) | JNum (tok : list N) | JStr (s : list N)
 | JArr (l : list jvalue) | JObj (m : list (list N * jvalue)).
 
-(** go-json appendNormalizedString (HTML escaping off, UTF-8 normalisation on), valid UTF-8 input *)
+(** go-json appendNormalizedString (HTML escaping off, UTF-8 normalisation on); round 2: any byte string *)
 Definition hexd (n : N) : N := if n <? 10 then 48 + n else 87 + n.
 Definition esc_byte (c : N) : list N :=
   if (c =? 34) || (c =? 92) then [92; c]
@@ -19,18 +19,63 @@ Definition esc_byte (c : N) : list N :=
   else if c =? 9 then [92; 116]
   else if c <? 32 then [92; 117; 48; 48; hexd (c / 16); hexd (c mod 16)]
   else [c].
-Fixpoint esc_string (s : list N) : list N :=
+Definition contb (c : N) : bool := (128 <=? c) && (c <=? 191).
+(** size of the valid UTF-8 sequence that starts with byte c followed by t (0: none): Go's acceptance ranges
+    (no overlong form, no surrogate, nothing above U+10FFFF) *)
+Definition vprefix (c : N) (t : list N) : nat :=
+  if (194 <=? c) && (c <=? 223) then
+    match t with c2 :: _ => if contb c2 then 2 else 0 | _ => 0 end
+  else if (224 <=? c) && (c <=? 239) then
+    match t with
+    | c2 :: c3 :: _ =>
+      if ((if c =? 224 then 160 else 128) <=? c2) && (c2 <=? (if c =? 237 then 159 else 191)) && contb c3 then 3 else 0
+    | _ => 0
+    end
+  else if (240 <=? c) && (c <=? 244) then
+    match t with
+    | c2 :: c3 :: c4 :: _ =>
+      if ((if c =? 240 then 144 else 128) <=? c2) && (c2 <=? (if c =? 244 then 143 else 191)) && contb c3 && contb c4 then 4 else 0
+    | _ => 0
+    end
+  else 0%nat.
+Definition ufffd : list N := [92; 117; 102; 102; 102; 100].
+Definition is_lsep (c : N) (t : list N) : bool :=
+  match t with c2 :: c3 :: _ => (c =? 226) && (c2 =? 128) && ((c3 =? 168) || (c3 =? 169)) | _ => false end.
+Definition lsep_esc (t : list N) : list N :=
+  match t with _ :: c3 :: _ => [92; 117; 50; 48; 50; if c3 =? 168 then 56 else 57] | _ => [] end.
+(** go-json appendNormalizedString, byte by byte: [copy] continuation bytes of a valid rune still to be copied,
+    [skip] bytes of an escaped U+2028/9 still to be dropped; an invalid byte is written as the 6 characters � *)
+Fixpoint esc_u (copy skip : nat) (s : list N) : list N :=
   match s with
   | [] => []
   | c :: t =>
-    match t with
-    | c2 :: c3 :: t' =>
-      if (c =? 226) && (c2 =? 128) && ((c3 =? 168) || (c3 =? 169))
-      then 92 :: 117 :: 50 :: 48 :: 50 :: (if c3 =? 168 then 56 else 57) :: esc_string t'
-      else esc_byte c ++ esc_string t
-    | _ => esc_byte c ++ esc_string t
+    match skip with
+    | S k => esc_u copy k t
+    | O =>
+      if c <? 128 then esc_byte c ++ esc_u 0 0 t
+      else match copy with
+           | S k => c :: esc_u k 0 t
+           | O =>
+             match vprefix c t with
+             | O => ufffd ++ esc_u 0 0 t
+             | S n => if is_lsep c t then lsep_esc t ++ esc_u 0 2 t else c :: esc_u n 0 t
+             end
+           end
     end
   end.
+Fixpoint utf8_ok_u (copy : nat) (s : list N) : bool :=
+  match s with
+  | [] => match copy with O => true | _ => false end
+  | c :: t =>
+    if c <? 128 then match copy with O => utf8_ok_u 0 t | _ => false end
+    else match copy with
+         | S k => utf8_ok_u k t
+         | O => match vprefix c t with O => false | S n => utf8_ok_u n t end
+         end
+  end.
+Definition utf8_ok (s : list N) : bool := utf8_ok_u 0 s.
+
+Definition esc_string (s : list N) : list N := esc_u 0 0 s.
 Definition ser_str (s : list N) : list N := 34 :: esc_string s ++ [34].
 
 Fixpoint join (sep : N) (ls : list (list N)) : list N :=
@@ -50,14 +95,43 @@ Fixpoint ser (v : jvalue) : list N :=
   | JObj m => 123 :: join 44 (map (fun kv => match kv with (k, x) => ser_str k ++ 58 :: ser x end) m) ++ [125]
   end.
 
-(** bytes a number token may contain: digits + - . e E ; a token is never empty *)
+(** bytes a number token may contain: digits + - . e E *)
 Definition numchar (c : N) : bool :=
   ((48 <=? c) && (c <=? 57)) || (c =? 43) || (c =? 45) || (c =? 46) || (c =? 101) || (c =? 69).
+(** JSON number grammar (optional minus, 0 or digits without leading zero, optional fraction, optional exponent) as an automaton; state 9 = dead *)
+Definition isdig (c : N) : bool := (48 <=? c) && (c <=? 57).
+Definition num_step (st : N) (c : N) : N :=
+  match st with
+  | 0 => if c =? 45 then 1 else if c =? 48 then 2 else if isdig c then 3 else 9
+  | 1 => if c =? 48 then 2 else if isdig c then 3 else 9
+  | 2 => if c =? 46 then 4 else if (c =? 101) || (c =? 69) then 6 else 9
+  | 3 => if isdig c then 3 else if c =? 46 then 4 else if (c =? 101) || (c =? 69) then 6 else 9
+  | 4 => if isdig c then 5 else 9
+  | 5 => if isdig c then 5 else if (c =? 101) || (c =? 69) then 6 else 9
+  | 6 => if (c =? 43) || (c =? 45) then 7 else if isdig c then 8 else 9
+  | 7 => if isdig c then 8 else 9
+  | 8 => if isdig c then 8 else 9
+  | _ => 9
+  end.
+Definition num_final (st : N) : bool :=
+  match st with 2 | 3 | 5 | 8 => true | _ => false end.
+Definition numtok (t : list N) : bool := forallb numchar t && num_final (fold_left num_step t 0).
+
+(** well-formed value: every number token is a JSON number (what strconv produces for ints and finite floats) *)
 Fixpoint wfv (v : jvalue) : bool :=
   match v with
-  | JNum tok => match tok with [] => false | _ => forallb numchar tok end
+  | JNum tok => numtok tok
   | JArr l => forallb wfv l
   | JObj m => forallb (fun kv => wfv (snd kv)) m
+  | _ => true
+  end.
+
+(** every string and key is valid UTF-8 (what "arbitrary Unicode" means for a Go string) *)
+Fixpoint utf8v (v : jvalue) : bool :=
+  match v with
+  | JStr s => utf8_ok s
+  | JArr l => forallb utf8v l
+  | JObj m => forallb (fun kv => utf8_ok (fst kv) && utf8v (snd kv)) m
   | _ => true
   end.
 
@@ -80,6 +154,425 @@ Fixpoint canon (v : jvalue) : bool :=
   | JObj m => keys_sorted (map fst m) && forallb (fun kv => canon (snd kv)) m
   | _ => true
   end.
+
+Fixpoint nlist_eqb (l l' : list N) : bool :=
+  match l, l' with
+  | [], [] => true | x :: l, y :: l' => (x =? y) && nlist_eqb l l' | _, _ => false end.
+(** * An executable JSON value parser (round 2): JSON white space between tokens, every JSON string escape (\\uXXXX incl.
+    surrogate pairs; a lone surrogate reads as U+FFFD), raw bytes inside strings as go-json takes them, number tokens validated
+    against the JSON grammar and kept as tokens. [jparse s = Some (v, rest)]: the value at the head of [s] and what follows.
+    Fuel bounds the nesting depth and the number of elements of one array/object; [S (length s)] is always enough. *)
+Fixpoint span_num (s : list N) : list N * list N :=
+  match s with
+  | c :: r => if numchar c then let (a, b) := span_num r in (c :: a, b) else ([], s)
+  | [] => ([], [])
+  end.
+
+Fixpoint strip (p s : list N) : option (list N) :=
+  match p with
+  | [] => Some s
+  | x :: p' => match s with y :: s' => if x =? y then strip p' s' else None | [] => None end
+  end.
+
+Definition unhex (c : N) : option N :=
+  if (48 <=? c) && (c <=? 57) then Some (c - 48)
+  else if (97 <=? c) && (c <=? 102) then Some (c - 87)
+  else if (65 <=? c) && (c <=? 70) then Some (c - 55)
+  else None.
+Definition unhex4 (a b c d : N) : option N :=
+  match unhex a, unhex b, unhex c, unhex d with
+  | Some x, Some y, Some z, Some w => Some (((x * 16 + y) * 16 + z) * 16 + w)
+  | _, _, _, _ => None
+  end.
+(** UTF-8 of a code point of the basic plane; None for a UTF-16 surrogate (handled by the caller) *)
+Definition utf8 (cp : N) : option (list N) :=
+  if cp <? 128 then Some [cp]
+  else if cp <? 2048 then Some [192 + cp / 64; 128 + cp mod 64]
+  else if (55296 <=? cp) && (cp <=? 57343) then None
+  else Some [224 + cp / 4096; 128 + (cp / 64) mod 64; 128 + cp mod 64].
+
+(** string body after the opening quote, up to and including the closing quote *)
+Fixpoint parse_str (s : list N) : option (list N * list N) :=
+  match s with
+  | [] => None
+  | c :: r =>
+    if c =? 34 then Some ([], r)
+    else if c =? 92 then
+      match r with
+      | [] => None
+      | e :: r1 =>
+        let simple (x : N) := match parse_str r1 with Some (t, r') => Some (x :: t, r') | None => None end in
+        if e =? 34 then simple 34 else if e =? 92 then simple 92 else if e =? 47 then simple 47
+        else if e =? 98 then simple 8 else if e =? 102 then simple 12 else if e =? 110 then simple 10
+        else if e =? 114 then simple 13 else if e =? 116 then simple 9
+        else if e =? 117 then
+          match r1 with
+          | a :: b :: c2 :: d :: r2 =>
+            match unhex4 a b c2 d with
+            | Some cp => match utf8 cp with
+                         | Some bytes => match parse_str r2 with Some (t, r') => Some (bytes ++ t, r') | None => None end
+                         | None =>
+                           (* a UTF-16 surrogate: with the low surrogate that follows it is one rune of a higher plane;
+                              alone it becomes U+FFFD (go-json decodeUnicodeRune + utf8.EncodeRune) *)
+                           let alone := match parse_str r2 with Some (t, r') => Some (239 :: 191 :: 189 :: t, r') | None => None end in
+                           match r2 with
+                           | b1 :: b2 :: e :: f :: g :: h :: r3 =>
+                             if (b1 =? 92) && (b2 =? 117) then
+                               match unhex4 e f g h with
+                               | Some lo =>
+                                 if (cp <? 56320) && (56320 <=? lo) && (lo <=? 57343) then
+                                   let u := 65536 + (cp - 55296) * 1024 + (lo - 56320) in
+                                   match parse_str r3 with
+                                   | Some (t, r') => Some (240 + u / 262144 :: 128 + (u / 4096) mod 64 :: 128 + (u / 64) mod 64 :: 128 + u mod 64 :: t, r')
+                                   | None => None
+                                   end
+                                 else alone
+                               | None => alone
+                               end
+                             else alone
+                           | _ => alone
+                           end
+                         end
+            | None => None
+            end
+          | _ => None
+          end
+        else None
+      end
+    else if c =? 0 then None      (* go-json: a raw NUL byte ends its buffer *)
+    else match parse_str r with Some (t, r') => Some (c :: t, r') | None => None end
+  end.
+
+(** JSON white space between tokens *)
+Definition is_jws (c : N) : bool := (c =? 32) || (c =? 9) || (c =? 10) || (c =? 13).
+Fixpoint skip_ws (s : list N) : list N :=
+  match s with c :: r => if is_jws c then skip_ws r else s | [] => [] end.
+
+Definition lit_null := [110; 117; 108; 108].
+Definition lit_true := [116; 114; 117; 101].
+Definition lit_false := [102; 97; 108; 115; 101].
+
+Section Elems.
+  Variable pv : list N -> option (jvalue * list N).
+  (** elements after '[' (at least one) up to and including ']' *)
+  Fixpoint parse_elems (n : nat) (s : list N) : option (list jvalue * list N) :=
+    match n with
+    | O => None
+    | S n' =>
+      match pv s with
+      | Some (v, r0) =>
+        match skip_ws r0 with
+        | c :: r =>
+          if c =? 93 then Some ([v], r)
+          else if c =? 44 then match parse_elems n' r with Some (l, r') => Some (v :: l, r') | None => None end
+          else None
+        | [] => None
+        end
+      | None => None
+      end
+    end.
+  (** members after '{' (at least one) up to and including '}' *)
+  Fixpoint parse_members (n : nat) (s : list N) : option (list (list N * jvalue) * list N) :=
+    match n with
+    | O => None
+    | S n' =>
+      match skip_ws s with
+      | q :: s1 =>
+        if q =? 34 then
+          match parse_str s1 with
+          | Some (k, s2) =>
+            match skip_ws s2 with
+            | col :: s3 =>
+              if col =? 58 then
+                match pv s3 with
+                | Some (v, r0) =>
+                  match skip_ws r0 with
+                  | c :: r =>
+                    if c =? 125 then Some ([(k, v)], r)
+                    else if c =? 44 then match parse_members n' r with Some (l, r') => Some ((k, v) :: l, r') | None => None end
+                    else None
+                  | [] => None
+                  end
+                | None => None
+                end
+              else None
+            | [] => None
+            end
+          | None => None
+          end
+        else None
+      | [] => None
+      end
+    end.
+End Elems.
+
+Fixpoint jparse_f (fuel : nat) (s : list N) : option (jvalue * list N) :=
+  match fuel with
+  | O => None
+  | S f =>
+    match skip_ws s with
+    | [] => None
+    | c :: r =>
+      if c =? 34 then match parse_str r with Some (t, r') => Some (JStr t, r') | None => None end
+      else if c =? 91 then
+        match skip_ws r with
+        | c2 :: r2 => if c2 =? 93 then Some (JArr [], r2)
+                      else match parse_elems (jparse_f f) f r with Some (l, r') => Some (JArr l, r') | None => None end
+        | [] => None
+        end
+      else if c =? 123 then
+        match skip_ws r with
+        | c2 :: r2 => if c2 =? 125 then Some (JObj [], r2)
+                      else match parse_members (jparse_f f) f r with Some (l, r') => Some (JObj l, r') | None => None end
+        | [] => None
+        end
+      else if numchar c then
+        let (t, r') := span_num (c :: r) in if numtok t then Some (JNum t, r') else None
+      else match strip lit_null (c :: r) with Some r' => Some (JNull, r') | None =>
+           match strip lit_true (c :: r) with Some r' => Some (JBool true, r') | None =>
+           match strip lit_false (c :: r) with Some r' => Some (JBool false, r') | None => None end end end
+    end
+  end.
+Definition jparse (s : list N) : option (jvalue * list N) := jparse_f (S (length s)) s.
+(** go-json's Unmarshal on the slice delimited by the scanner, at the level of syntax: exactly one value, nothing after it *)
+Definition jdec0 (t : list N) : option jvalue :=
+  match jparse t with Some (v, []) => Some v | _ => None end.
+
+
+(** decoding into a Go map: members re-ordered by encoded key, the last of several members with the same key wins;
+    numbers become float64 and are written back as [renum tok] *)
+Definition key_ltb (a b : list N) : bool := lex_ltb (ser_str a) (ser_str b).
+Fixpoint ins (kv : list N * jvalue) (m : list (list N * jvalue)) : list (list N * jvalue) :=
+  match m with
+  | [] => [kv]
+  | kv' :: m' => if key_ltb (fst kv) (fst kv') then kv :: m
+                 else if key_ltb (fst kv') (fst kv) then kv' :: ins kv m'
+                 else m
+  end.
+Section Norm.
+  Variable renum : list N -> list N.
+  Fixpoint norm (v : jvalue) : jvalue :=
+    match v with
+    | JNum t => JNum (renum t)
+    | JArr l => JArr (map norm l)
+    | JObj m => JObj (fold_right (fun kv acc => ins (fst kv, norm (snd kv)) acc) [] m)
+    | _ => v
+    end.
+  Definition jdec (t : list N) : option jvalue :=
+    match jdec0 t with Some v => Some (norm v) | None => None end.
+  Fixpoint numfixed (v : jvalue) : bool :=
+    match v with
+    | JNum t => nlist_eqb (renum t) t
+    | JArr l => forallb numfixed l
+    | JObj m => forallb (fun kv => numfixed (snd kv)) m
+    | _ => true
+    end.
+End Norm.
+
+
+(** * The number path of the reader: token -> float64 (strconv.ParseFloat) -> token (go-json AppendFloat64),
+    modelled for INTEGER tokens (optional minus, digits); other tokens are left as they are. *)
+Definition dval (ds : list N) : N := fold_left (fun a d => a * 10 + (d - 48)) ds 0.
+Fixpoint digits_f (fuel : nat) (n : N) : list N :=
+  match fuel with
+  | O => []
+  | S f => if n <? 10 then [48 + n] else digits_f f (n / 10) ++ [48 + n mod 10]
+  end.
+Definition digits (n : N) : list N := digits_f (S (N.to_nat (N.size n))) n.
+
+(** nearest float64 (ties to even) of a natural number, as a natural number (no overflow below 2^1024) *)
+Definition round64 (n : N) : N :=
+  let b := N.size n in
+  if b <=? 53 then n
+  else let sh := b - 53 in
+       let q := N.shiftr n sh in
+       let r := n - N.shiftl q sh in
+       let half := N.shiftl 1 (sh - 1) in
+       let q' := if (half <? r) || ((half =? r) && N.odd q) then q + 1 else q in
+       N.shiftl q' sh.
+
+(** shortest decimal that reads back as x (x = round64 x, x > 2^53): the digits and the number of zeros that follow *)
+Definition pow10 (k : nat) : N := 10 ^ N.of_nat k.
+Fixpoint shortest_f (n : nat) (nd : nat) (x : N) : N :=
+  (* n = number of digits still to try to drop; candidates keep (nd - n) leading digits *)
+  match n with
+  | O => x
+  | S n' =>
+    let p := pow10 n in
+    let lo := (x / p) * p in
+    let hi := lo + p in
+    let okd := round64 lo =? x in
+    let oku := round64 hi =? x in
+    if okd && oku then
+      let rem := x - lo in
+      if (p <? 2 * rem) || ((p =? 2 * rem) && N.odd (x / p)) then hi else lo
+    else if okd then lo
+    else if oku then hi
+    else shortest_f n' nd x
+  end.
+Definition shortest (x : N) : N := let nd := length (digits x) in shortest_f (nd - 1) nd x.
+
+Fixpoint strip_zeros_r (l : list N) : list N := (* l reversed *)
+  match l with 48 :: r => strip_zeros_r r | _ => l end.
+Definition two_digits (e : N) : list N := if e <? 10 then [48; 48 + e] else digits e.
+(** strconv 'e' format with the shortest digits *)
+Definition fmt_e (y : N) : list N :=
+  let ds := digits y in
+  let sig := rev (strip_zeros_r (rev ds)) in
+  let e := N.of_nat (length ds - 1) in
+  match sig with
+  | [] => []
+  | d :: [] => d :: 101 :: 43 :: two_digits e
+  | d :: r => d :: 46 :: r ++ 101 :: 43 :: two_digits e
+  end.
+Definition fmt_nat64 (x : N) : list N :=
+  if N.size x <=? 53 then digits x                        (* an integer below 2^53: its decimal digits *)
+  else let y := shortest x in
+       if y <? 10 ^ 21 then digits y else fmt_e y.        (* go-json: 'e' format from 1e21 on *)
+
+Definition all_digits (ds : list N) : bool := forallb isdig ds.
+Definition split_sign (t : list N) : bool * list N :=
+  match t with c :: ds => if c =? 45 then (true, ds) else (false, t) | [] => (false, []) end.
+Definition renum_int (t : list N) : list N :=
+  let (neg, ds) := split_sign t in
+  let x := round64 (dval ds) in
+  if neg then 45 :: (if x =? 0 then [48] else fmt_nat64 x) else fmt_nat64 x.
+Definition is_int_tok (t : list N) : bool := all_digits (snd (split_sign t)).
+(** * The number path on ANY JSON number token: exact decimal -> nearest float64 -> shortest decimal -> go-json layout *)
+Record f64 := F64 { fm : N; fe : Z }.   (* value fm * 2^fe; normal: 2^52 <= fm < 2^53; subnormal: fe = -1074, fm < 2^52 *)
+Definition f64_eqb (a b : f64) : bool := (fm a =? fm b) && (fe a =? fe b)%Z.
+Definition p2 (k : Z) : N := N.shiftl 1 (Z.to_N k).
+Definition p10 (k : Z) : N := 10 ^ Z.to_N k.
+
+(** nearest float64 (ties to even) of the positive rational num/den *)
+Definition to_f64 (num den : N) : f64 :=
+  if num =? 0 then F64 0 0 else
+  let q_at (e : Z) := if (0 <=? e)%Z then num / (den * p2 e) else (num * p2 (- e)) / den in
+  let adj (e : Z) := let q := q_at e in if 2 ^ 53 <=? q then (e + 1)%Z else if q <? 2 ^ 52 then (e - 1)%Z else e in
+  let e0 := (Z.of_N (N.size num) - Z.of_N (N.size den) - 53)%Z in
+  let e := Z.max (adj (adj e0)) (-1074) in
+  let n' := if (0 <=? e)%Z then num else num * p2 (- e) in
+  let d' := if (0 <=? e)%Z then den * p2 e else den in
+  let q := n' / d' in
+  let r := n' - q * d' in
+  let q' := if (d' <? 2 * r) || ((d' =? 2 * r) && N.odd q) then q + 1 else q in
+  if q' =? 2 ^ 53 then F64 (2 ^ 52) (e + 1) else F64 q' e.
+Definition to_f64_dec (d : N) (p : Z) : f64 :=
+  if (0 <=? p)%Z then to_f64 (d * p10 p) 1 else to_f64 d (p10 (- p)).
+Definition f64_num (x : f64) : N := if (0 <=? fe x)%Z then fm x * p2 (fe x) else fm x.
+Definition f64_den (x : f64) : N := if (0 <=? fe x)%Z then 1 else p2 (- fe x).
+
+(** largest k with 10^k <= vn/vd *)
+Fixpoint find_neg (fuel : nat) (vn vd : N) (j : Z) : Z :=
+  match fuel with
+  | O => j
+  | S f => if vd <=? vn * p10 j then j else find_neg f vn vd (j + 1)%Z
+  end.
+Definition dec_exp (vn vd : N) : Z :=
+  if vd <=? vn then (Z.of_nat (length (digits (vn / vd))) - 1)%Z
+  else (- find_neg 400 vn vd 1)%Z.
+
+(** does the decimal d * 10^p read back as x (lie in the rounding interval of x = m * 2^e)? Bounds in units of 2^(e-2):
+    4m + 2 above; 4m - 2 below, 4m - 1 when m = 2^52 (the gap below a power of two is half as wide; not for the smallest
+    normal); the bounds themselves belong to the interval iff m is even (ties go to even). Cross-multiplied, no division. *)
+Definition reads_back (x : f64) (d : N) (p : Z) : bool :=
+  let m := fm x in let e2 := (fe x - 2)%Z in
+  let hi := 4 * m + 2 in
+  let lo := if (m =? 2 ^ 52) && (-1074 <? fe x)%Z then 4 * m - 1 else 4 * m - 2 in
+  (* compare d * 10^p with b * 2^e2 *)
+  let c := (if (0 <=? p)%Z then d * p10 p else d) * (if (0 <=? e2)%Z then 1 else p2 (- e2)) in
+  let sc := (if (0 <=? p)%Z then 1 else p10 (- p)) * (if (0 <=? e2)%Z then p2 e2 else 1) in
+  if N.even m then (lo * sc <=? c) && (c <=? hi * sc) else (lo * sc <? c) && (c <? hi * sc).
+
+(** shortest decimal d * 10^p that reads back as x; n = number of digits tried *)
+Fixpoint shortest_dec (fuel : nat) (n : Z) (x : f64) (vn vd : N) (k : Z) : N * Z :=
+  match fuel with
+  | O => (0, 0%Z)
+  | S f =>
+    let p := (k - n + 1)%Z in
+    let wn := if (0 <=? p)%Z then vn else vn * p10 (- p) in
+    let wd := if (0 <=? p)%Z then vd * p10 p else vd in
+    let lo := wn / wd in
+    let r := wn - lo * wd in
+    let okd := negb (lo =? 0) && reads_back x lo p in
+    let oku := reads_back x (lo + 1) p in
+    if okd && oku then
+      (if (wd <? 2 * r) || ((wd =? 2 * r) && N.odd lo) then lo + 1 else lo, p)
+    else if okd then (lo, p)
+    else if oku then (lo + 1, p)
+    else shortest_dec f (n + 1)%Z x vn vd k
+  end.
+
+Fixpoint strip0 (fuel : nat) (d : N) (p : Z) : N * Z :=
+  match fuel with
+  | O => (d, p)
+  | S f => if (d mod 10 =? 0) && negb (d =? 0) then strip0 f (d / 10) (p + 1)%Z else (d, p)
+  end.
+Definition zeros (k : Z) : list N := repeat 48 (Z.to_nat k).
+Definition exp_digits (e : Z) : list N :=
+  let a := Z.to_N (Z.abs e) in (if (e <? 0)%Z then 45 else 43) :: (if a <? 10 then [48; 48 + a] else digits a).
+
+(** go-json AppendFloat64 of the positive float64 x *)
+Definition fmt_f64 (x : f64) : list N :=
+  let vn := f64_num x in let vd := f64_den x in
+  let k := dec_exp vn vd in
+  let (d0, p0) := shortest_dec 20 1 x vn vd k in
+  let (d, p) := strip0 20 d0 p0 in
+  let D := digits d in
+  let nd := Z.of_nat (length D) in
+  let dp := (nd + p)%Z in
+  let t6 := to_f64_dec 1 (-6) in
+  let small := vn * f64_den t6 <? f64_num t6 * vd in
+  let big := p10 21 * vd <=? vn in
+  if small || big then
+    match D with
+    | [] => []
+    | c :: [] => c :: 101 :: exp_digits (dp - 1)
+    | c :: r => c :: 46 :: r ++ 101 :: exp_digits (dp - 1)
+    end
+  else if (dp <=? 0)%Z then 48 :: 46 :: zeros (- dp) ++ D
+  else if (nd <=? dp)%Z then D ++ zeros (dp - nd)
+  else firstn (Z.to_nat dp) D ++ 46 :: skipn (Z.to_nat dp) D.
+
+(** token -> sign, mantissa digits value, decimal exponent *)
+Fixpoint span_dig (s : list N) : list N * list N :=
+  match s with c :: r => if isdig c then let (a, b) := span_dig r in (c :: a, b) else ([], s) | [] => ([], []) end.
+Definition tok_parts (t : list N) : bool * N * Z :=
+  let (neg, u) := split_sign t in
+  let (I, r1) := span_dig u in
+  let (F, r2) := match r1 with c :: r => if c =? 46 then span_dig r else ([], r1) | [] => ([], []) end in
+  let E := match r2 with
+           | c :: r => if (c =? 101) || (c =? 69) then
+                         match r with
+                         | s :: r' => if s =? 45 then (- Z.of_N (dval (fst (span_dig r'))))%Z
+                                      else if s =? 43 then Z.of_N (dval (fst (span_dig r')))
+                                      else Z.of_N (dval (fst (span_dig r)))
+                         | [] => 0%Z
+                         end
+                       else 0%Z
+           | [] => 0%Z
+           end in
+  (neg, dval (I ++ F), (E - Z.of_nat (length F))%Z).
+
+Definition renum_any (t : list N) : list N :=
+  match tok_parts t with
+  | (neg, M, E10) =>
+    if M =? 0 then (if neg then [45; 48] else [48])
+    else let x := to_f64_dec M E10 in
+         if (971 <? fe x)%Z then t                       (* beyond the float64 range: ParseFloat fails (the reader dies): not modelled *)
+         else if fm x =? 0 then (if neg then [45; 48] else [48])
+         else (if neg then [45] else []) ++ fmt_f64 x
+  end.
+
+
+(** the number path of the reader followed by the writer. Integer tokens go through the integer transcription above (about
+    which C02_int_tokens_fixed is proved), every other token through the general one. Defensive: the result is always a
+    number token. *)
+Definition renum64 (t : list N) : list N :=
+  if numtok t then
+    let r := if is_int_tok t then renum_int t else renum_any t in
+    if numtok r then r else t
+  else t.
 
 (** * The scanner of _parse_json_header_ : loop state (start, level, inquote, escaped); result (start, stop),
     stop = -1 when the loop ends without closing the object. [fixed = false] is the code before the repair
@@ -106,11 +599,51 @@ Definition scan_gen (fixed : bool) (h : list N) : option (nat * nat) :=
 Definition scan_obj := scan_gen true.
 Definition scan_obj_orig := scan_gen false.
 
-(** strings.TrimSpace restricted to ASCII white space *)
+(** strings.TrimSpace: ASCII white space and the Unicode White_Space runes in their UTF-8 encoding
+    (U+0085, U+00A0, U+1680, U+2000..U+200A, U+2028, U+2029, U+202F, U+205F, U+3000) *)
 Definition is_ws (c : N) : bool := (c =? 32) || ((9 <=? c) && (c <=? 13)).
 Fixpoint trim_left (l : list N) : list N :=
-  match l with c :: t => if is_ws c then trim_left t else l | [] => [] end.
-Definition trim (l : list N) : list N := rev (trim_left (rev (trim_left l))).
+  match l with
+  | c :: t =>
+    if is_ws c then trim_left t
+    else match t with
+         | c2 :: t2 =>
+           if (c =? 194) && ((c2 =? 133) || (c2 =? 160)) then trim_left t2
+           else match t2 with
+                | c3 :: t3 =>
+                  if ((c =? 225) && (c2 =? 154) && (c3 =? 128))
+                     || ((c =? 226) && (c2 =? 128) && (((128 <=? c3) && (c3 <=? 138)) || (c3 =? 168) || (c3 =? 169) || (c3 =? 175)))
+                     || ((c =? 226) && (c2 =? 129) && (c3 =? 159))
+                     || ((c =? 227) && (c2 =? 128) && (c3 =? 128))
+                  then trim_left t3 else l
+                | [] => l
+                end
+         | [] => l
+         end
+  | [] => []
+  end.
+(** the same from the end, on the reversed list (last byte first) *)
+Fixpoint trim_left_rev (l : list N) : list N :=
+  match l with
+  | c :: t =>
+    if is_ws c then trim_left_rev t
+    else match t with
+         | c2 :: t2 =>
+           if (c2 =? 194) && ((c =? 133) || (c =? 160)) then trim_left_rev t2
+           else match t2 with
+                | c3 :: t3 =>
+                  if ((c3 =? 225) && (c2 =? 154) && (c =? 128))
+                     || ((c3 =? 226) && (c2 =? 128) && (((128 <=? c) && (c <=? 138)) || (c =? 168) || (c =? 169) || (c =? 175)))
+                     || ((c3 =? 226) && (c2 =? 129) && (c =? 159))
+                     || ((c3 =? 227) && (c2 =? 128) && (c =? 128))
+                  then trim_left_rev t3 else l
+                | [] => l
+                end
+         | [] => l
+         end
+  | [] => []
+  end.
+Definition trim (l : list N) : list N := rev (trim_left_rev (rev (trim_left l))).
 Definition slice (a b : nat) (l : list N) : list N := firstn (b - a) (skipn a l).
 
 Inductive hres := HNoObject (def : list N) | HObject (v : jvalue) (def : list N) | HFatal.
@@ -295,23 +828,42 @@ Definition parse_fastq (shift : N) (b : list N) : res (list prec) :=
 Inductive rres := RRec (r : wrec) | RFatal | ROther.
 Inductive rlist := RL (l : list wrec) | RLFatal | RLOther.
 Definition definition_key : list N := [100; 101; 102; 105; 110; 105; 116; 105; 111; 110].
+Fixpoint lookup_key (k : list N) (m : list (list N * jvalue)) : option jvalue :=
+  match m with (k', v) :: m' => if nlist_eqb k k' then Some v else lookup_key k m' | [] => None end.
+(** set a member of a canonical member list (replaces the member with the same key) *)
+Fixpoint put (kv : list N * jvalue) (m : list (list N * jvalue)) : list (list N * jvalue) :=
+  match m with
+  | [] => [kv]
+  | kv' :: m' => if key_ltb (fst kv) (fst kv') then kv :: m
+                 else if key_ltb (fst kv') (fst kv) then kv' :: put kv m'
+                 else kv :: m'
+  end.
 Section Reader.
   Variable dec : list N -> option jvalue.
-  (** ParseFastSeqJsonHeader *)
+  (** ParseFastSeqJsonHeader. Text after the JSON object becomes the definition, appended (after a blank) to the
+      "definition" member of the object when there is one. *)
   Definition read_header (p : prec) : rres :=
     match p_def p with
     | [] => RRec (mkw (p_id p) [] (p_seq p) (p_qual p))
     | d => match parse_header dec d with
            | HObject (JObj m) [] => RRec (mkw (p_id p) m (p_seq p) (p_qual p))
+           | HObject (JObj m) rest =>
+             match lookup_key definition_key m with
+             | None => RRec (mkw (p_id p) (put (definition_key, JStr rest) m) (p_seq p) (p_qual p))
+             | Some (JStr s) => RRec (mkw (p_id p) (put (definition_key, JStr (s ++ 32 :: rest)) m) (p_seq p) (p_qual p))
+             | Some _ => ROther
+             end
            | HNoObject d' => RRec (mkw (p_id p) [(definition_key, JStr d')] (p_seq p) (p_qual p))
            | HFatal => RFatal
            | _ => ROther
            end
     end.
-  (** ParseGuessedFastSeqHeader: JSON iff the definition starts with a brace *)
+  (** ParseGuessedFastSeqHeader: JSON iff the definition starts with a brace; the OBI-style parser is only modelled on
+      the empty definition (a record written without any annotation), where it does nothing *)
   Definition read_guessed (p : prec) : rres :=
     match p_def p with
     | 123 :: _ => read_header p
+    | [] => RRec (mkw (p_id p) [] (p_seq p) (p_qual p))
     | _ => ROther
     end.
   Fixpoint read_all (f : prec -> rres) (l : list prec) : rlist :=
@@ -345,6 +897,7 @@ Definition fq_ok (r : wrec) : bool :=
 (** quality offsets for which a written quality character can never be a blank or a line terminator (33 and 64 are the toolkit's) *)
 Definition shift_ok (shift : N) : Prop := 33 <= shift /\ shift <= 162.
 Definition canon_rec (r : wrec) : bool := canon (JObj (w_ann r)).
+Definition ann_utf8 (r : wrec) : bool := utf8v (JObj (w_ann r)).
 Definition annotated (l : list wrec) : bool := forallb (fun r => negb (Nat.eqb (length (w_ann r)) 0)) l.
 (** what the chunk parser returns for a written record: the formatted header is the definition *)
 Definition as_parsed (r : wrec) : prec := mkp (w_id r) (header_info (w_ann r)) (w_seq r) None.
@@ -352,9 +905,6 @@ Definition as_parsed_q (r : wrec) : prec := mkp (w_id r) (header_info (w_ann r))
 Definition noeol (c : N) : bool := negb (is_eol c).
 
 (** * Correspondence cases: inputs + what the real code answered *)
-Fixpoint nlist_eqb (l l' : list N) : bool :=
-  match l, l' with
-  | [], [] => true | x :: l, y :: l' => (x =? y) && nlist_eqb l l' | _, _ => false end.
 Definition oqual_eqb (a b : option (list N)) : bool :=
   match a, b with Some x, Some y => nlist_eqb x y | None, None => true | _, _ => false end.
 Definition prec_eqb (a b : prec) : bool :=
@@ -364,20 +914,30 @@ Fixpoint precs_eqb (l l' : list prec) : bool :=
   | [], [] => true | x :: l, y :: l' => prec_eqb x y && precs_eqb l l' | _, _ => false end.
 
 Inductive ccase :=
-| CSer (v : jvalue) (bytes : list N)                                   (* marshaller output; the value is in the theorems' domain *)
+| CSer (v : jvalue) (valid : bool) (bytes : list N)                    (* marshaller output; valid: the generator says every string is valid UTF-8 (the theorems' domain) *)
+| CDec (bytes : list N) (bytes2 : list N)                              (* go-json: Unmarshal bytes (produced by the marshaller) then Marshal again *)
+| CHdr (guessed strict : bool) (def : list N) (fatal : bool) (enc : list N) (* header parser on a title remainder; enc = formatted annotations afterwards *)
 | CScan (h : list N) (start stop : Z) (found : bool) (rest : list N)   (* hook: interval; rest returned when found and decodable *)
 | CWrite (fq : bool) (shift : N) (l : list wrec) (dom : bool) (bytes : list N) (* FormatFasta/FastqBatch; dom: generator says the records are inside the claim *)
 | CRead (fq : bool) (shift : N) (bytes : list N) (l : list prec).      (* chunk parser (before the header parser) *)
 
 Definition check (c : ccase) : bool :=
   match c with
-  | CSer v b => nlist_eqb (ser v) b && wfv v && canon v
+  | CSer v valid b => nlist_eqb (ser v) b && wfv v && canon v && Bool.eqb (utf8v v) valid &&
+                (negb valid || match jdec0 b with Some v' => nlist_eqb (ser v') b | None => false end)
+  | CDec b b2 => match jdec renum64 b with Some v' => nlist_eqb (ser v') b2 | None => false end
+  | CHdr guessed strict d fatal enc =>
+    match (if guessed then read_guessed (jdec renum64) else read_header (jdec renum64)) (mkp [] d [] None) with
+    | RRec r => negb fatal && nlist_eqb (header_info (w_ann r)) enc
+    | RFatal => negb strict      (* the model refuses: go-json may be more lenient (not modelled) unless the generator vouches for the text *)
+    | ROther => negb strict
+    end
   | CScan h a b found rest =>
     let (a', b') := scan_raw true h in
     (a' =? a)%Z && (b' =? b)%Z &&
     (if found then match scan_obj h with Some (_, e) => nlist_eqb (trim (skipn e h)) rest | None => false end else true)
   | CWrite fq shift l dom b =>
-    Bool.eqb (forallb (if fq then fq_ok else rec_ok) l && forallb canon_rec l) dom &&
+    Bool.eqb (forallb (if fq then fq_ok else rec_ok) l && forallb canon_rec l && forallb ann_utf8 l) dom &&
     match format_batch fq shift l with Ok b' => nlist_eqb b' b | Fatal => false end
   | CRead fq shift b l =>
     match (if fq then parse_fastq shift b else parse_fasta b) with Ok l' => precs_eqb l' l | Fatal => false end
